@@ -90,6 +90,14 @@ CLAIMED = {
             "six decades; running-coupling bypass checked through the THDM Yukawa getters.",
             "m_b(SM5) reference re-implements hep-ph/0207126 formulas; one open known finding (Landau pole above m_b)",
             "4/C20"),
+    "C14": ("coverage-guided fuzzing (libFuzzer, in-process target with the semantic oracle inside, ASan+UBSan) + "
+            "property-based structure-aware mutation (Hypothesis, subprocess under ASan/UBSan/LSan) + valgrind memcheck sample",
+            "Byte-level campaigns from the shipped inputs and from an empty corpus with a block/key dictionary, structure-aware "
+            "mutations of inputs, options and argv, and a valgrind sample; oracle: exit status in {0,1}, no signal, no sanitizer "
+            "or valgrind report, bounded time, stdout grammar (number / detailed report / SLHA echo + output blocks), "
+            "diagnostic on every failure exit.",
+            "libFuzzer campaigns are only approximately reproducible; the saved artifact is the reproducible unit",
+            "4/C14"),
     "C15": ("property-based testing (Hypothesis): differential comparison program output vs library API for the same text, "
             "cross-format agreement, arithmetic consistency of the detailed report (grammar-based parsing)",
             "Generated valid inputs of the three formats x flag combinations, each executed in all five output formats; "
@@ -112,6 +120,8 @@ CLAIMED = {
             "4/C18"),
 }
 
+ENGINE = {"C14": "libfuzzer+hypothesis+valgrind", "C19": "hypothesis+vexec+tsan"}
+
 TEXT_DEFAULT = "check not built yet (work in progress; see DESIGN.md section 4)"
 NA_REASON = {}
 
@@ -129,7 +139,7 @@ def main():
                 "thorough_cmd": "./check %s --tier thorough" % pid,
                 "evidence_file": "/verif/evidence/%s.json" % pid,
                 "replay_cmd_template": "./check %s --replay {path}" % pid,
-                "engine": "hypothesis+vexec",
+                "engine": ENGINE.get(pid, "hypothesis+vexec"),
                 "level_claimed": {"category": "exploration", "text": text,
                                   "design_ref": "DESIGN.md section " + ref},
                 "level_note": note,
@@ -149,6 +159,13 @@ def main():
             "add_only": True,
         },
         "engines": [
+            {"name": "libfuzzer+hypothesis+valgrind", "path": "/verif/harness/fuzz_cli.cpp",
+             "serves_properties": ["C14"],
+             "kind_free_text": "in-process libFuzzer target around gm2calc.cpp (main renamed), ASan+UBSan, oracle inside the target; "
+                               "Hypothesis structure-aware mutations run the sanitizer CLI as a subprocess; valgrind on the plain build"},
+            {"name": "hypothesis+vexec+tsan", "path": "/verif/harness/tsan_exec.cpp", "serves_properties": ["C19"],
+             "kind_free_text": "Hypothesis-generated call orders and thread plans; sequential purity through the ASan executor, "
+                               "concurrent plans through a ThreadSanitizer-built executor"},
             {"name": "hypothesis+vexec", "path": "/verif/pbt",
              "serves_properties": sorted(CLAIMED),
              "kind_free_text": "Hypothesis strategies and oracles in Python (mpmath references, metamorphic and "
